@@ -131,7 +131,25 @@ class Ctx:
         except drv.DriverHang as h:
             self.count("driver_hangs")
             self.pool.restart(drv.MODES[mode][0])
-            return {"hang": {"cpu_s": round(h.cpu_s, 2), "wall_s": round(h.wall_s, 2)}}
+            hang = {"hang": {"cpu_s": round(h.cpu_s, 2), "wall_s": round(h.wall_s, 2)}}
+            if h.cpu_s < 0.05 * h.wall_s and not getattr(self, "_no_hang_retry", False):
+                # the process did not run at all while we waited (a spinning one would have burnt CPU): before this
+                # counts as "does not terminate" the very same request gets a second, longer chance on a fresh driver.
+                # A wall-clock watchdog on a loaded machine is not a verdict; a stall that does not reproduce is
+                # reported as inconclusive, one that does is a hang.
+                try:
+                    r = self.pool.call(mode, req, timeout=3 * timeout)
+                except drv.DriverHang:
+                    self.pool.restart(drv.MODES[mode][0])
+                    return hang
+                except drv.DriverDied as d:
+                    self.pool.restart(drv.MODES[mode][0])
+                    return {"died": {"rc": d.rc, "stderr": d.stderr[-1500:]}}
+                self.count("stalls_not_reproduced")
+                self.inconc(f"{req.get('op')} in {mode} did not answer for {h.wall_s:.0f}s using {h.cpu_s:.2f}s of CPU, and answered at "
+                            f"once when repeated on a fresh driver: a stall of the machine, not counted as a hang")
+                return r
+            return hang
         except drv.DriverDied as d:
             self.count("driver_deaths")
             self.pool.restart(drv.MODES[mode][0])
@@ -141,6 +159,7 @@ class Ctx:
         """Pipelined execution of a request list in one mode, surviving hangs."""
         out = []
         rest = list(reqs)
+        stalled_once = False
         while rest:
             to = timeout or (20.0 + 0.05 * len(rest))
             try:
@@ -149,9 +168,17 @@ class Ctx:
             except drv.DriverHang as h:
                 done = getattr(h, "done", [])
                 out.extend(done)
-                out.append({"hang": {"cpu_s": round(h.cpu_s, 2), "wall_s": round(h.wall_s, 2)}})
                 self.count("driver_hangs")
                 self.pool.restart(drv.MODES[mode][0])
+                if h.cpu_s < 0.05 * h.wall_s and not stalled_once:
+                    # nothing ran while we waited: the unanswered request gets one more chance (see call())
+                    stalled_once = True
+                    self.count("stalls_retried")
+                    self.inconc(f"{rest[len(done)].get('op')} in {mode} did not answer for {h.wall_s:.0f}s using {h.cpu_s:.2f}s of CPU; "
+                                f"repeated on a fresh driver")
+                    rest = rest[len(done):]
+                    continue
+                out.append({"hang": {"cpu_s": round(h.cpu_s, 2), "wall_s": round(h.wall_s, 2)}})
                 rest = rest[len(done) + 1:]
             except drv.DriverDied as d:
                 done = getattr(d, "done", [])
